@@ -1,6 +1,7 @@
 package main
 
 import (
+	"context"
 	"fmt"
 	"sort"
 	"strings"
@@ -10,6 +11,7 @@ import (
 
 	"github.com/anishathalye/porcupine"
 	bitcoin_reader "github.com/tokenized/bitcoin_reader"
+	"github.com/tokenized/pkg/storage"
 )
 
 // ---- C20 (concurrent part): the peer address book from concurrent callers ----------------------
@@ -30,18 +32,44 @@ type peerOut struct {
 
 type peerState struct {
 	scores map[string]int32
+	saved  string // what the stored file holds: sorted "addr=score" list of the last Save ("-": no file)
 }
 
 func clonePeers(s peerState) peerState {
-	n := peerState{scores: map[string]int32{}}
+	n := peerState{scores: map[string]int32{}, saved: s.saved}
 	for k, v := range s.scores {
 		n.scores[k] = v
 	}
 	return n
 }
 
+func listing(scores map[string]int32) string {
+	var l []string
+	for a, sc := range scores {
+		l = append(l, fmt.Sprintf("%s=%d", a, sc))
+	}
+	sort.Strings(l)
+	return strings.Join(l, ",")
+}
+
+const peersKey = "verif/peers"
+
+// yieldStore is storage whose writes take time: another caller can run between the moment a
+// writer has decided what to write and the moment it reaches storage.
+type yieldStore struct{ *vstore.Store }
+
+func (s yieldStore) Write(ctx context.Context, key string, body []byte, o *storage.Options) error {
+	vsched.Yield()
+	return s.Store.Write(ctx, key, body, o)
+}
+
+func (s yieldStore) Remove(ctx context.Context, key string) error {
+	vsched.Yield()
+	return s.Store.Remove(ctx, key)
+}
+
 var peerModel = porcupine.Model{
-	Init: func() interface{} { return peerState{scores: map[string]int32{}} },
+	Init: func() interface{} { return peerState{scores: map[string]int32{}, saved: "-"} },
 	Step: func(state, input, output interface{}) (bool, interface{}) {
 		st := clonePeers(state.(peerState))
 		in := input.(peerIn)
@@ -71,13 +99,21 @@ var peerModel = porcupine.Model{
 			sort.Strings(l)
 			return out.List == strings.Join(l, ","), st
 		case "save":
+			st.saved = listing(st.scores)
 			return true, st
+		case "clear":
+			st.scores = map[string]int32{}
+			st.saved = "-"
+			return true, st
+		case "stored":
+			// asked once, after every caller has returned: what a restart would load
+			return out.List == st.saved, st
 		}
 		return false, st
 	},
 	Equal: func(a, b interface{}) bool {
 		x, y := a.(peerState), b.(peerState)
-		if len(x.scores) != len(y.scores) {
+		if len(x.scores) != len(y.scores) || x.saved != y.saved {
 			return false
 		}
 		for k, v := range x.scores {
@@ -93,7 +129,7 @@ var peerModel = porcupine.Model{
 func peerScenario(scripts [][]peerIn) func() func() []string {
 	return func() func() []string {
 		store := vstore.New()
-		repo := bitcoin_reader.NewPeerRepository(store, "")
+		repo := bitcoin_reader.NewPeerRepository(yieldStore{store}, peersKey)
 		repo.Count() // set-up touch: gives the repository's lock a stable name
 		var clock int64
 		var ops []porcupine.Operation
@@ -129,6 +165,8 @@ func peerScenario(scripts [][]peerIn) func() func() []string {
 						out.List = strings.Join(s, ",")
 					case "save":
 						repo.Save(bg)
+					case "clear":
+						repo.Clear(bg)
 					}
 					clock++
 					ops = append(ops, porcupine.Operation{ClientId: c, Input: in, Call: call, Output: out, Return: clock})
@@ -137,6 +175,23 @@ func peerScenario(scripts [][]peerIn) func() func() []string {
 		}
 		return func() []string {
 			var problems []string
+			// what a restart would find: the stored file loaded by a fresh repository
+			stored := "-"
+			if _, ok := store.Get(peersKey); ok {
+				fresh := bitcoin_reader.NewPeerRepository(store, peersKey)
+				if err := fresh.Load(bg); err != nil {
+					problems = append(problems, "stored-file-unloadable: "+err.Error())
+				}
+				l, _ := fresh.Get(bg, -1<<31, -1)
+				sc := map[string]int32{}
+				for _, p := range l {
+					sc[p.Address] = p.Score
+				}
+				stored = listing(sc)
+			}
+			clock++
+			ops = append(ops, porcupine.Operation{ClientId: len(scripts), Input: peerIn{Kind: "stored"}, Call: clock, Output: peerOut{List: stored}, Return: clock + 1})
+			clock++
 			if !porcupine.CheckOperations(peerModel, ops) {
 				var d []string
 				for _, o := range ops {
@@ -181,6 +236,10 @@ func c20Scenarios(thorough bool) []*scenario {
 		"add-a,score,count|add-a,get":  {{add(a), score(a, 1), count}, {add(a), getNeg}},
 		"add-a|add-b|score-a,score-b":  {{add(a)}, {add(b)}, {score(a, 1), score(b, -1)}},
 		"add-a,save|score-a,get|add-a": {{add(a), save}, {score(a, 5), get}, {add(a)}},
+		// what reaches storage: overlapping Saves with an update in between, and Clear next to a Save
+		"add-a,save|score-a,save": {{add(a), save}, {score(a, 5), save}},
+		"add-a,save|clear":        {{add(a), save}, {peerIn{Kind: "clear"}}},
+		"add-a,save,score-a|save": {{add(a), save, score(a, 1)}, {save}},
 		// a caller keeps its result while another caller's query returns a different set
 		"add-a,add-b,get|score-b,get-neg": {{add(a), add(b), get}, {score(b, -3), peerIn{Kind: "get", Min: -5, Max: -1}}},
 	}
